@@ -237,13 +237,42 @@ impl Property for C10 {
         self.classes.iter().map(|c| c.0.clone()).collect()
     }
     fn strategy(&self, class: usize) -> BoxedStrategy<Case> {
+        // 1 case in 8: both multipliers come from {0, 1, 2, max / n-1} at the same time (all digits zero in both recodings,
+        // single digits, ...), a combination the independent scalar classes produce with negligible probability
+        let tiny = || prop_oneof![7 => Just(None), 1 => (0u8..4, 0u8..4).prop_map(Some)];
+        fn tiny_scalar(g: usize, _like: &[u8], i: u8) -> Vec<u8> {
+            let n = rg(g).order();
+            let x = match i { 0 => num_bigint::BigUint::from(0u32), 1 => num_bigint::BigUint::from(1u32), 2 => num_bigint::BigUint::from(2u32), _ => n - 1u32 };
+            x.to_bytes_le()
+        }
+        fn tiny_u128(i: u8) -> u128 { match i { 0 => 0, 1 => 1, 2 => 2, _ => u128::MAX } }
+        fn tiny_u64(i: u8) -> u64 { match i { 0 => 0, 1 => 1, 2 => 2, _ => u64::MAX } }
         match self.classes[class].1.clone() {
-            Kind::Mamv(g, sc, pc) => (prop::bool::weighted(0.3).prop_flat_map(move |ch| pv_strategy(g, pc, ch)), gscalar(g, sc), any_gscalar(g), any::<bool>(), any::<u8>())
-                .prop_map(move |(p, a, b, swap, form)| { let (u, v) = if swap { (b, a) } else { (a, b) }; Case::Mamv { g: g as u8, p, u, v, form } })
+            Kind::Mamv(g, sc, pc) => (prop::bool::weighted(0.3).prop_flat_map(move |ch| pv_strategy(g, pc, ch)), gscalar(g, sc), any_gscalar(g), any::<bool>(), any::<u8>(), tiny())
+                .prop_map(move |(p, a, b, swap, form, t)| {
+                    let (mut u, mut v) = if swap { (b, a) } else { (a, b) };
+                    if let Some((i, j)) = t { u = tiny_scalar(g, &u, i); v = tiny_scalar(g, &v, j); }
+                    Case::Mamv { g: g as u8, p, u, v, form }
+                })
                 .boxed(),
-            Kind::Mul128(g, sc) => (any_pv(g), u128_strategy(), gscalar(g, sc)).prop_map(move |(p, u, v)| Case::Mul128 { g: g as u8, p, u, v }).boxed(),
-            Kind::Mul64mu(sc) => (any_pv(6), u64_strategy(), u64_strategy(), gscalar(6, sc)).prop_map(|(p, u0, u1, v)| Case::Mul64mu { p, u0, u1, v }).boxed(),
-            Kind::Helper(g, sc, mode) => (any_pv(g), any_gscalar(g), gscalar(g, sc), any_pv(g)).prop_map(move |(q, s, k, delta)| Case::Helper { g: g as u8, q, s, k, delta, mode }).boxed(),
+            Kind::Mul128(g, sc) => (any_pv(g), u128_strategy(), gscalar(g, sc), tiny())
+                .prop_map(move |(p, mut u, mut v, t)| {
+                    if let Some((i, j)) = t { u = tiny_u128(i); v = tiny_scalar(g, &v, j); }
+                    Case::Mul128 { g: g as u8, p, u, v }
+                })
+                .boxed(),
+            Kind::Mul64mu(sc) => (any_pv(6), u64_strategy(), u64_strategy(), gscalar(6, sc), tiny(), 0u8..4)
+                .prop_map(|(p, mut u0, mut u1, mut v, t, k)| {
+                    if let Some((i, j)) = t { u0 = tiny_u64(i); u1 = tiny_u64(k); v = tiny_scalar(6, &v, j); }
+                    Case::Mul64mu { p, u0, u1, v }
+                })
+                .boxed(),
+            Kind::Helper(g, sc, mode) => (any_pv(g), any_gscalar(g), gscalar(g, sc), any_pv(g), tiny())
+                .prop_map(move |(q, mut s, mut k, delta, t)| {
+                    if let Some((i, j)) = t { s = tiny_scalar(g, &s, i); k = tiny_scalar(g, &k, j); }
+                    Case::Helper { g: g as u8, q, s, k, delta, mode }
+                })
+                .boxed(),
         }
     }
     fn check(&self, c: &Case) -> Outcome {
